@@ -57,6 +57,27 @@ func (c *inlCtx) tryStmt(s ast.Stmt, next ast.Stmt) ([]ast.Stmt, bool, bool) {
 				usedNext = true
 			}
 		}
+		mode.dead = make([]bool, len(st.Lhs))
+		if mode.consumer != nil {
+			for i, l := range st.Lhs {
+				id, ok := l.(*ast.Ident)
+				if !ok || id.Name == "_" || c.info.Defs[id] == nil {
+					continue
+				}
+				obj := c.info.Defs[id]
+				outside := 0
+				ast.Inspect(c.fd, func(n ast.Node) bool {
+					if n == ast.Node(mode.consumer) || n == ast.Node(mode.consumer.Cond) || n == ast.Node(mode.consumer.Body) || (mode.consumer.Else != nil && n == ast.Node(mode.consumer.Else)) {
+						return false
+					}
+					if u, ok := n.(*ast.Ident); ok && c.info.Uses[u] == obj {
+						outside++
+					}
+					return true
+				})
+				mode.dead[i] = outside == 0 // uses in the branch taken are looked at per return
+			}
+		}
 		if r, ok := c.inline(call, f, mode); ok {
 			return r, usedNext, true
 		}
@@ -68,6 +89,20 @@ func (c *inlCtx) tryStmt(s ast.Stmt, next ast.Stmt) ([]ast.Stmt, bool, bool) {
 				l := c.list([]ast.Stmt{as, inner})
 				if len(l) == 2 && l[0] == ast.Stmt(as) {
 					return nil, false, false // nothing happened: keep the original statement
+				}
+				declares := false
+				for _, x := range l {
+					switch y := x.(type) {
+					case *ast.DeclStmt, *ast.LabeledStmt:
+						declares = true
+					case *ast.AssignStmt:
+						if y.Tok == token.DEFINE {
+							declares = true
+						}
+					}
+				}
+				if !declares {
+					return l, false, true // nothing is declared at the top: the block is not needed for scoping
 				}
 				return []ast.Stmt{&ast.BlockStmt{Lbrace: st.Pos(), List: l}}, false, true
 			}
@@ -181,7 +216,7 @@ func (c *inlCtx) inline(call *ast.CallExpr, f *Func, mode inlMode) ([]ast.Stmt, 
 			// the variables the statement defines must exist before the spliced statements
 			for i, l := range mode.lhs {
 				id, ok := l.(*ast.Ident)
-				if !ok || id.Name == "_" {
+				if !ok || id.Name == "_" || !b.varAssigned[i] {
 					continue
 				}
 				var te ast.Expr
@@ -215,8 +250,8 @@ func (c *inlCtx) inline(call *ast.CallExpr, f *Func, mode inlMode) ([]ast.Stmt, 
 	}
 	if useTok == token.DEFINE {
 		// a variable defined by the statement and read only by the test that was specialised away would be unused
-		for _, l := range mode.lhs {
-			if id, ok := l.(*ast.Ident); ok && id.Name != "_" && (c.info.Defs[id] != nil || mode.tmpName != "") && b2.assignsEmitted > 0 {
+		for i, l := range mode.lhs {
+			if id, ok := l.(*ast.Ident); ok && id.Name != "_" && (c.info.Defs[id] != nil || mode.tmpName != "") && b2.varAssigned[i] {
 				out = append(out, &ast.AssignStmt{Lhs: []ast.Expr{ast.NewIdent("_")}, Tok: token.ASSIGN, Rhs: []ast.Expr{ast.NewIdent(id.Name)}, TokPos: call.Pos()})
 			}
 		}
@@ -236,6 +271,7 @@ func (c *inlCtx) inline(call *ast.CallExpr, f *Func, mode inlMode) ([]ast.Stmt, 
 func (b *builder) build() []ast.Stmt {
 	b.exits, b.exitTop, b.emitted = 0, false, 0
 	b.declared = map[string]bool{}
+	b.varAssigned = map[int]bool{}
 	body := b.cloneBody()
 	if b.fail != "" {
 		return nil
